@@ -1,13 +1,63 @@
-(* C23: chunked transfer coding is decoded exactly.  Property theorems only. *)
+(* C23: chunked transfer coding is decoded exactly.  Property theorems only.
+   Model: coq/model/Chunked.v (bfe_http/chunked.go after fix commit 46f0dc6).  Error codes: 1 = io.EOF (clean end),
+   2 = io.ErrUnexpectedEOF, 3 = line too long, 4/6/7 = bad chunk size, 5 = malformed chunk (no CR LF after data). *)
 From Coq Require Import List ZArith Bool.
 From Bfe Require Import lib.Val lib.Bytes model.Chunked proofs.ChunkedProofs run.RunC23.
 Import ListNotations.
 Open Scope Z_scope.
 
-(* parseHexUint accepts exactly the size tokens of 1..16 hex digits and returns their value; every other token
-   (empty, 17 or more digits, any non-hex byte such as a chunk extension, sign or 0x prefix) is an error. *)
-Theorem C23_size_exact : forall tok,
+(* Reading a chunked body to the end with ANY sequence of read-buffer sizes gives exactly what the reference
+   decoder for the chunked grammar (ref_decode_all, the specification) gives: the same data bytes; a clean end
+   (io.EOF) if and only if the wire is a well-formed chunked body, and then exactly the chunks and the last-chunk
+   line have been consumed; in every other case a real error (never "no error", never a clean end). *)
+Theorem C23_decode_exact : forall sizes wire,
+  let '(d, e, rest) := decode_all sizes wire in
+  let '(d', ok, rest') := ref_decode_all wire in
+  d = d' /\ e <> 0 /\ (e = 1 <-> ok = true) /\ (ok = true -> rest = rest').
+Proof. exact decode_all_exact. Qed.
+Print Assumptions C23_decode_exact.
+
+(* Round trip: for every list of chunks handed to the chunked writer (empty writes are skipped, sizes < 2^64) and
+   every sequence of read-buffer sizes, the chunked reader returns exactly the concatenation of the chunks, ends
+   with io.EOF and leaves nothing of the encoder output unread. *)
+Theorem C23_roundtrip : forall chunks sizes, Forall (fun d => blen d < 2 ^ 64) chunks ->
+  decode_all sizes (encode_chunks chunks) = (concat chunks, 1, []).
+Proof. exact decode_encode_roundtrip. Qed.
+Print Assumptions C23_roundtrip.
+
+(* A chunk-size token is accepted iff it is 1 to 16 hex digits, and then with its value; every other token
+   (empty, 17 or more digits, any non-hex byte such as a chunk extension, a sign or a 0x prefix) is an error. *)
+Theorem C23_reject_bad_size : forall tok,
   parse_hex tok = (hex_value tok, 0) /\ size_ok tok = true \/
   fst (parse_hex tok) = 0 /\ snd (parse_hex tok) <> 0 /\ size_ok tok = false.
 Proof. exact parse_hex_exact. Qed.
-Print Assumptions C23_size_exact.
+Print Assumptions C23_reject_bad_size.
+
+(* The executable predicate the harness evaluates on the implementation holds of the model on every input of the
+   three operation kinds (decode / encode / size token); there is no known-finding class left (kf_C23 = 0). *)
+Theorem C23_prop_of_model_decode : forall wire sizes pieces,
+  let i := VL [VZ 1; VB wire; vLZ sizes; pieces] in prop_C23 i (run_C23 i) = true.
+Proof. exact prop_C23_decode. Qed.
+Print Assumptions C23_prop_of_model_decode.
+Theorem C23_prop_of_model_encode : forall chunks, Forall (fun d => blen d < 2 ^ 64) chunks ->
+  let i := VL [VZ 2; vLB chunks] in prop_C23 i (run_C23 i) = true.
+Proof. exact prop_C23_encode. Qed.
+Print Assumptions C23_prop_of_model_encode.
+Theorem C23_prop_of_model_size : forall line,
+  let i := VL [VZ 3; VB line] in prop_C23 i (run_C23 i) = true.
+Proof. exact prop_C23_size. Qed.
+Print Assumptions C23_prop_of_model_size.
+
+(* What the code did before the fix (old parseHexUint kept as parse_hex_prefix): the empty token and a 17-digit
+   token were accepted (as 0 = last chunk, and as 5 after silent wrap-around) although the grammar rejects them. *)
+Theorem C23_prefix_bad_size_refuted :
+  parse_hex_prefix [] 0 = (0, 0) /\
+  parse_hex_prefix [49;48;48;48;48;48;48;48;48;48;48;48;48;48;48;48;53] 0 = (5, 0) /\
+  size_ok [] = false /\ size_ok [49;48;48;48;48;48;48;48;48;48;48;48;48;48;48;48;53] = false.
+Proof. exact parse_hex_prefix_defects. Qed.
+Print Assumptions C23_prefix_bad_size_refuted.
+
+(* Non-vacuity: a body whose data contains CR LF "0" CR LF, with an empty write in the middle. *)
+Example C23_roundtrip_example :
+  decode_all [2; 7] (encode_chunks [[104; 105]; []; [13; 10; 48; 13; 10]]) = ([104; 105; 13; 10; 48; 13; 10], 1, []).
+Proof. exact roundtrip_example. Qed.
